@@ -9,6 +9,7 @@ import (
 	"sort"
 	"strings"
 	"sync"
+	"sync/atomic"
 	"time"
 )
 
@@ -103,7 +104,9 @@ func NewReport(property, level string, args *Args) *Report {
 	if err != nil {
 		Infra("cannot read known findings: %v", err)
 	}
-	return &Report{Property: property, Args: args, Level: level, distinct: map[string]struct{}{}, knownHit: map[string]int{}, Extra: map[string]any{}, findings: fds}
+	r := &Report{Property: property, Args: args, Level: level, distinct: map[string]struct{}{}, knownHit: map[string]int{}, Extra: map[string]any{}, findings: fds}
+	activeReport.Store(r)
+	return r
 }
 
 // Eval counts n monitor evaluations.
@@ -213,9 +216,32 @@ func (r *Report) ViolationCount() int {
 	return n
 }
 
-// Infra reports an infrastructure problem and exits 2 (never a violation).
+var (
+	activeReport atomic.Pointer[Report]
+	inInfra      atomic.Bool
+)
+
+// Infra reports an infrastructure problem and exits 2 (never a violation). Violations that monitors
+// recorded on real observations BEFORE the trouble stand on their own: they are reported (exit 1) - a
+// broken lock or a wedged store often first fails a monitor and then hangs the driver.
 func Infra(format string, a ...any) {
 	fmt.Fprintf(os.Stderr, "INFRA: "+format+"\n", a...)
+	if r := activeReport.Load(); r != nil && !inInfra.Swap(true) {
+		n := -1
+		if r.mu.TryLock() {
+			n = 0
+			for _, v := range r.violations {
+				if v.Known == "" {
+					n++
+				}
+			}
+			r.mu.Unlock()
+		}
+		if n > 0 {
+			fmt.Fprintf(os.Stderr, "INFRA: %d violation(s) had been recorded before this; reporting them\n", n)
+			r.Finish()
+		}
+	}
 	Cleanup()
 	os.Exit(2)
 }
